@@ -60,10 +60,10 @@ def r1_one_rng(ctx):
                 t = peel(f.expr_operand(s.args[0], s.b, 'T'))
                 ok = f.key == 'des::runtime::builder::Builder::seeded' and t[0] == 'arg'
                 ctx.check(ok, 'seed-source:%s' % f.key, 'an RNG is seeded only in Builder::seeded, from the seed parameter', s.where(), show(t))
-            if _is(n, SAMPLING):
+            if _is(n, SAMPLING) or _is(s.callee, SAMPLING):
                 n_sample += 1
                 # Rng::x(rng, ..) takes the generator first; Distribution::sample(distr, rng) second
-                ri = 1 if ('Distribution::sample' in n and len(s.args) > 1) else 0
+                ri = 1 if ('Distribution::sample' in (s.callee or n) and len(s.args) > 1) else 0
                 recv = f.expr_operand(s.args[ri], s.b, 'T') if s.args else ('unknown',)
                 src_ok = _from_sim_rng(P, f, recv, 4)
                 ctx.touch(f)
